@@ -22,6 +22,8 @@ LEVEL_TEXT = ("every weight vector returned by the real CVaR filter over all ord
 LEVEL_NOTE = "trusted: vlib.models.check_cvar_weights (Fraction arithmetic), NumPy; two-sided constraints only judged on sign/support/mass"
 ANCHOR_FILES = ["src/ropt/plugins/realization_filter/default.py", "src/ropt/plugins/realization_filter/base.py",
                 "src/ropt/ensemble_evaluator/_ensemble_evaluator.py"]
+EXECUTION_COUNTERS = ["cvar.calls", "cvar.e2e"]   # executions of the oracle inside the cases (reported as coverage.evaluations)
+CONTRACT_GROUPS = ['C04']   # icontract layer (vlib/contracts.py) active inside the workload and in the repository's own tests
 RULE = ("case = (n, failure mask, flavour[, bound kind]); inside a case every ordering of the successful values "
         "(all permutations for n<=NMAX, sampled with ties beyond) x every percentile of the grid is sent to the real "
         "filter; a (case) is non-trivial if at least one realization succeeded and the percentile leaves a proper tail "
